@@ -8,5 +8,5 @@ cd /verif
 props="$@"
 [ -z "$props" ] && props=$(./bin/gorumscheck -list | cut -d' ' -f1)
 printf "%s\n" $props | xargs -P 6 -I{} sh -c './check.sh {} quick > /tmp/seed_{}.log 2>&1; rc=$?; if [ $rc -ne 0 ]; then echo "{} rc=$rc"; grep -A2 "^VIOLATION\|^UNDECIDED" /tmp/seed_{}.log | cut -c1-400 | head -12; fi' | cat
-git -C /repo checkout -- . ; git -C /repo status --short | head -3
+git -C /repo checkout -- . ; git -C /repo clean -fdq; git -C /repo status --short | head -3
 echo "--- done (only failing properties are listed above)"
